@@ -147,7 +147,7 @@ def kani_part(report, tier):
     kc.add(Harness("canary_must_fail", "        let a: f64 = kani::any();\n        let q = a * quantities::length::METER;\n        assert!(q.amount() == a);\n",
                    expect="fail", key="canary", symbolic=False))
     report.bounds["kani_storage"] = "every f64 bit pattern for amount and factor, every unit (symbolic index) of 14 catalogue types, a synthetic single-unit and a synthetic no-reference type, AmountT"
-    kc.run(report, timeout=900)
+    kc.run(report, timeout=(480 if tier == "quick" else 3000))
     confirm_failures(report)
 
 
